@@ -365,8 +365,8 @@ var enumOrderCache = map[string][]int{}
 
 // enumOrder fixes the order in which the family is used. C05: first the members whose assignment
 // contains both a shared and a contextual scope (where the legality rule can go wrong either way);
-// C20: first the legal members that contain a contextual service (the ones that can be run and where
-// instances must be kept apart per context). Each part in a fixed permutation, so that any prefix
+// C20: first the members that contain a contextual service (where instances must be kept apart per
+// context; the illegal ones among them are rejected by a correct tool and cost nothing). Each part in a fixed permutation, so that any prefix
 // samples all shapes.
 func enumOrder(prop string) []int {
 	if o, ok := enumOrderCache[prop]; ok {
@@ -387,7 +387,7 @@ func enumOrder(prop string) []int {
 		}
 		pick := sh && cx
 		if prop == "C20" {
-			pick = cx && len(gen.ScopeViolations(enumShapeRaw(j))) == 0
+			pick = cx // also the illegal ones: a tool that wrongly accepts them hands out shared instances holding contextual ones
 		}
 		if pick {
 			first = append(first, j)
